@@ -43,6 +43,10 @@ def kinds(t, out=None):
     return out
 
 
+DEMO_DRIFTS = []
+DRIFTS = []      # (tv name, event index, call index): calls the as-built transcription ReaderStackOps did not predict exactly
+
+
 def tv(ctx, evs, name, shards=None, demo=False):
     shards = shards or min(12, max(1, len(evs) // 1500))
     chunks = [list(range(i, len(evs), shards)) for i in range(shards)]
@@ -59,6 +63,9 @@ def tv(ctx, evs, name, shards=None, demo=False):
             m = re.match(r'<<"REJECT", (\d+), "([^"]+)"(?:, (\d+))?>>', line)
             if m:
                 out.append((idx[int(m.group(1)) - 1], m.group(2), int(m.group(3) or 0)))
+            m = re.match(r'<<"DRIFT", (\d+), (\d+)>>', line)
+            if m:
+                (DEMO_DRIFTS if demo else DRIFTS).append((name, idx[int(m.group(1)) - 1], int(m.group(2))))
         return out
     rej = []
     with ThreadPoolExecutor(max_workers=shards) as ex:
@@ -174,6 +181,20 @@ def run(ctx):
             sig = 'bitio.crash@%s' % ('writer' if e['kind'] == 'write' else 'buffer' if e['kind'] == 'buffer' else '+'.join(sorted(kinds(e['term']))))
             ctx.finding(sig, '%s: %s' % (shape(e['term']) if e['kind'] not in ('write', 'buffer') else e['kind'], top), dict(term=e['term'], panic=e['panic'][:2000]))
     rej = tv(ctx, allev, 'tv_bitio')
+    pure = sum(1 for e in evs if not e['panic'] and kinds(e['term']) <= {'leaf', 'section', 'multi', 'zero'})
+    ctx.cov['readerstack_binding'] = dict(histories_predicted_exactly_by_as_built_model=pure - len({i for n, i, _ in DRIFTS if n == 'tv_bitio'}),
+                                          histories_of_pure_bit_compositions=pure, not_predicted=len(DRIFTS))
+    if pure < 500:
+        raise Inconclusive('too few histories on pure bit compositions to bind ReaderStack (%d)' % pure)
+    rejected = {i for i, _, _ in rej}
+    for n, i, opi in DRIFTS[:5]:
+        e = allev[i]; o = e['ops'][opi - 1]
+        what = '%s; call %d: %s(n=%s off=%s wh=%s) -> k=%s eof=%s err=%s res=%s pos=%s' % (shape(e['term']), opi, o.get('op'), o.get('n'), o.get('off'), o.get('wh'),
+                                                                                      o.get('k'), o.get('eof'), o.get('err'), o.get('res'), o.get('pa'))
+        ctx.drift('ReaderStackOps does not predict: ' + what)
+    if any(i not in rejected for _, i, _ in DRIFTS):
+        # the requirement accepts the call but the transcription does not describe it: the as-built model checking above no longer speaks for this code
+        ctx.inconc('as-built model ReaderStack differs from the code on %d recorded calls that the requirement accepts (first: %s)' % (len(DRIFTS), ctx.cov.get('model_drift_samples', ['?'])[0]))
     ctx.cov['traces_validated_against_impl'] += len(allev)
     ctx.cov['evaluations'] += sum(len(e['ops']) for e in evs) + len(wevs) + sum(len(e['bops']) for e in bevs)
     ctx.cov['bitio'] = dict(gen_cases=gen_n, random_cases=len(evs) - gen_n, writer_cases=len(wevs), buffer_histories=len(bevs), buffer_calls=sum(len(e['bops']) for e in bevs), long_stream_cases=sum(1 for e in evs[gen_n:] if sum(o['k'] * o['u'] for o in e['ops'] if o['op'] in ('read', 'readfull')) > 2048), calls=sum(len(e['ops']) for e in evs),
@@ -212,10 +233,18 @@ def run(ctx):
     a = copy.deepcopy(good[0]); o = next(o for o in a['ops'] if o['op'] == 'read' and o['k'] > 2); o['out'][1] ^= 1
     b = copy.deepcopy(good[1]); o = next(o for o in b['ops'] if o['op'] == 'read' and o['k'] > 2); o['eof'] = True; o['k'] -= 1; o['out'] = o['out'][:-1 * o['u']]
     c = copy.deepcopy(wevs[1]); c['outbits'] = c['outbits'][:-8] if len(c['outbits']) >= 8 else [1] * 8
-    drej = tv(ctx, [good[2], a, b, c], 'tv_bitio_demo', shards=1, demo=True)
+    # a legal short read (one bit fewer, no end-of-data) as the last call of a history on a pure bit composition: the requirement
+    # accepts it, the as-built transcription must flag it as drift
+    pureg = [e for e in good if kinds(e['term']) <= {'leaf', 'section', 'multi', 'zero'} and e['ops'][-1]['op'] == 'read' and e['ops'][-1]['k'] > 2 and not e['ops'][-1]['eof']]
+    if not pureg:
+        raise Inconclusive('no history for the as-built binding demo')
+    d = copy.deepcopy(pureg[0]); o = d['ops'][-1]; o['k'] -= 1; o['out'] = o['out'][:-1]; o['pa'] = -1
+    drej = tv(ctx, [good[2], a, b, c, d], 'tv_bitio_demo', shards=1, demo=True)
     lines = sorted(i for i, _, _ in drej)
-    ok = lines == [1, 2, 3]
-    ctx.cov['binding_demo'].append(dict(spec='TraceBitIO', corrupted_events=[1, 2, 3], rejected=[(i, s) for i, s, _ in drej], ok=ok))
+    dlines = sorted(i for _, i, _ in DEMO_DRIFTS)
+    ok = lines == [1, 2, 3] and 4 in dlines and 0 not in dlines
+    ctx.cov['binding_demo'].append(dict(spec='TraceBitIO', corrupted_events=[1, 2, 3], rejected=[(i, s) for i, s, _ in drej], legal_short_read_event=4,
+                                        flagged_as_drift_from_as_built_model=dlines, ok=ok))
     if not ok:
         raise Inconclusive('binding demo failed for TraceBitIO: %s' % drej)
 
